@@ -83,7 +83,11 @@ def run_concrete(target, cfg, values):
         for nm, clause in fr.items():
             if not dsl.holds(clause):
                 failed.append('frame.' + nm)
-        return dict(outcome='ok', failed=failed, detail=repr(r)[:200])
+        try:
+            detail = repr(r)[:200]
+        except Exception as ex:       # repr() of the result itself is broken on the tree under test
+            detail = '<repr of the result raised %s: %s>' % (type(ex).__name__, ex)
+        return dict(outcome='ok', failed=failed, detail=detail)
     finally:
         if teardown:
             teardown()
